@@ -15,7 +15,7 @@ from fractions import Fraction
 from .common import C, Nat, Opt, Raw, Rec, coq
 
 ID = "C11"
-COQ_FILES = ["C11/Model.v", "C11/Spec.v", "C11/Check.v", "C11/Proofs.v", "C11/Property.v"]
+COQ_FILES = ["C11/Model.v", "C11/Spec.v", "C11/Heap.v", "C11/Check.v", "C11/Proofs.v", "C11/HeapProofs.v", "C11/Property.v"]
 COQ_PRELUDE = ("From Coq Require Import ZArith QArith List Bool.\nImport ListNotations.\n"
                "From KD Require Import C11.Model C11.Spec C11.Check.\nOpen Scope Z_scope.\n")
 COQ_CHECK = "check"
@@ -26,6 +26,12 @@ TRUSTED = [
     "hand-written model coq/C11/Model.v of KDMixWrapper.getitem_xclass / getitem_x / getitem_class, to_one_hot_vector "
     "and ModeWrapper's fuse/unpack logic (repaired tree); tied to KD_REPO by this run's correspondence evaluation "
     "(returned items, seed argument of every generator, every draw, every call made to the wrapped dataset)",
+    "hand-written heap reading coq/C11/Heap.v of the same statements (which of them create a tensor: clone, a * w, "
+    "F.pad, index_select; which write into one: mul_, add_; an address = one storage, a view shares its base's "
+    "address); proved equal to Model.v's values for aliasing and cloning datasets; tied to KD_REPO by comparing, per "
+    "case, whether the returned x shares its storage with a stored sample (untyped_storage().data_ptr()) with the "
+    "model's address, and by observing the stored tensors / labels before and after (earlier requests, the request, "
+    "its repetitions, DataLoader fetches)",
     "float32 arithmetic is not modelled: model and spec compute over Q on the exact input values; comparison with the "
     "real output uses tolerance 2e-3 on data entries (magnitude <= 100) and 1e-5 on label entries",
     "generator contract: random() in [0,1), integers(n) in [0,n), beta(a,a) in [0,1]; a generator is a function of "
@@ -35,7 +41,7 @@ TRUSTED = [
     "GlobalRng under np.random.seed(s) (recorded through a transparent wrapper, then twice unrecorded): equal global "
     "numpy state gives equal samples, torch / random global state is untouched, numpy's advances",
     "torch.nn.functional.pad (constant mode, flat padding list starting at the last dimension), index_select, "
-    "one_hot, in-place mul_/add_ behave as documented (Model.torch_pad etc.; validated entry by entry on every case)",
+    "one_hot, clone, in-place mul_/add_ behave as documented (Model.torch_pad etc.; validated entry by entry on every case)",
     "harness/c11.py: id-encoded datasets with an access log (incl. which context object every call was handed), "
     "recording / scripted generators injected by replacing the module attributes `np` (default_rng) and `GlobalRng` "
     "of kd_mix_wrapper, decoding of "
@@ -43,13 +49,17 @@ TRUSTED = [
     "the harness dataset / recording transform record the index of the sample they see",
 ]
 ASSUMPTIONS = [
-    "the wrapped dataset returns a fresh (unaliased) x tensor on every getitem_x call: the wrapper mixes x in place "
-    "(x.mul_ / x2.mul_).  Every tensor-producing getitem_x shipped with the package does (kd_image_folder loads from "
-    "disk, all five tests_util datasets clone explicitly -- unlike getitem_class, which hands out the stored label and "
-    "was repaired in 2b476f5).  Measured: with a dataset handing out its stored tensors the stored data of sample i and "
-    "of the partner are overwritten and partner == i yields 2*lam*(1-lam)*x (cases alias_x, counted, outside the "
-    "claim); with fresh tensors partner == i returns sample i (theorem self_partner_returns_sample)",
-    "all samples of a dataset have the same rank >= 1 and a float dtype (differing ranks: RuntimeError from torch)",
+    "NO freshness assumption on the wrapped dataset any more (repaired: fixes/C11_mix_x_out_of_place.patch; before, "
+    "x.mul_ / x2.mul_ wrote into what getitem_x returned): getitem_x may hand out clones, the stored tensor objects or "
+    "views self.x[idx] of one stored tensor, getitem_class the stored label -- in every case the wrapped dataset is "
+    "unchanged after any history of requests, repeated seeded requests are equal and partner == i returns sample i "
+    "(theorems wrapped_dataset_unchanged_after_any_history, repeated_requests_equal, self_partner_on_aliasing_dataset; "
+    "measured on every case).  What IS assumed: the wrapped dataset's own getitem_x / getitem_class do not modify its "
+    "storage, and nobody writes into a returned untouched sample (with p < 1 an aliasing dataset's untouched x is, as "
+    "the dataset chose, its own storage)",
+    "all samples of a dataset have the same rank >= 1 and a float dtype (float32 / float64 / float16; the returned x "
+    "has the dataset's dtype whether mixed or not; differing ranks: RuntimeError from torch; integer images raise "
+    "RuntimeError in mul_ as before the repair)",
     "labels are class ids in [0, n_classes) (Python int, 0-dim integer tensor) or 1-d vectors of length n_classes; "
     "'non-negative and sums to one' is claimed where the label vectors going in are probability vectors.  A class id "
     "outside [0, n_classes) makes torch's one_hot raise RuntimeError as soon as that sample is loaded (explicit, "
@@ -64,7 +74,8 @@ ASSUMPTIONS = [
     "raise AssertionError in ModeWrapper.__init__ (explicit, outside the claim, classified and modelled)",
     "the returned context: the wrapper records nothing itself; every entry comes from a load of sample i (repaired: "
     "fixes/C11_partner_ctx.patch; before, the partner's loads overwrote the entries of sample i)",
-    "the partner may be sample i itself (integers(len) includes i): then the result equals sample i",
+    "the partner may be sample i itself (integers(len) includes i): then the result equals sample i (also when x2 is "
+    "then the very same tensor object as x)",
     "constructor arguments satisfy the constructor's assertions",
 ]
 RULE = ("n in 1..7 samples of rank 1..3 with dims 1..5, equal shapes or independently drawn shapes per sample; labels: "
@@ -77,8 +88,14 @@ RULE = ("n in 1..7 samples of rank 1..3 with dims 1..5, equal shapes or independ
         "XTransformWrapper above it; return_ctx on/off (every entry of the returned context must describe sample i; the "
         "dataset logs which calls were handed the returned context object); class counts incl. 1 and class ids out of "
         "range; 1-element float label vectors; every 7th case (thorough: with 2 workers) additionally fetches the "
-        "sample through a torch DataLoader with the stack's worker_init_fn; "
-        "distinct by (shapes of i and partner, tokens, label kind, unify, seeded, p, stack, return_ctx)")
+        "sample through a torch DataLoader with the stack's worker_init_fn; the wrapped dataset's getitem_x hands out "
+        "clones (60%), its stored tensor objects (20%) or views self.x[idx] of one stored tensor (20%, equal shapes); "
+        "40% of the cases are preceded by a history of 1..4 other requests (random indices / modes, half of them ending "
+        "with the same index) through the same wrapper stack; sample dtype float32 / float64 (8%) / float16 (6%); after "
+        "the request (and its seeded repetitions in modes 'x', 'class', 'x class', 'class x') every stored tensor and "
+        "label must be what it was; "
+        "distinct by (shapes of i and partner, tokens, label kind, unify, seeded, p, stack, return_ctx, aliasing kind, "
+        "history)")
 
 TOKSETS = [["x", "class"], ["class", "x"], ["x"], ["class"], ["x", "class", "index"], ["index", "x", "class"],
            ["x", "index", "class"], ["class", "index", "x"], ["index", "class", "x"], ["class", "x", "index"],
@@ -260,8 +277,14 @@ def build_dataset(case, events):
     from kappadata.datasets.kd_dataset import KDDataset
     kind, vals = case["labels"]
     ncls = case["ncls"]
-    xs = [torch.tensor([float(v) for v in sample_values(k, sh)], dtype=torch.float32).reshape(sh)
+    dtype = getattr(torch, case.get("dtype") or "float32")
+    xs = [torch.tensor([float(v) for v in sample_values(k, sh)], dtype=dtype).reshape(sh)
           for k, sh in enumerate(case["shapes"])]
+    alias = alias_kind(case)
+    if alias == "view":
+        # one stored tensor holding all samples; getitem_x returns self.x[idx], a view of it
+        X = torch.stack(xs)
+        xs = [X[k] for k in range(len(xs))]
     if kind == "vec_onehot":
         store = torch.eye(ncls)[torch.tensor(vals)].clone()                    # float matrix, rows handed out as views
     elif kind in ("vec_soft", "vec1"):
@@ -272,7 +295,6 @@ def build_dataset(case, events):
         store = torch.tensor(vals)
     else:
         store = list(vals)
-    alias = case.get("alias_x", False)
 
     class IdDataset(KDDataset):
         def __init__(self):
@@ -284,6 +306,8 @@ def build_dataset(case, events):
             events.append(("x", int(idx), type(idx).__name__, ctx))
             if ctx is not None:
                 ctx["x_of"] = int(idx)             # what an upstream loader / transform records about ITS sample
+            if alias == "view":
+                return X[idx]                      # a new tensor object on every call, the same storage
             x = self.xs[idx]
             return x if alias else x.clone()
 
@@ -304,6 +328,25 @@ def build_dataset(case, events):
     ds = IdDataset()
     pristine = ([x.clone() for x in xs], store.clone() if hasattr(store, "clone") else list(store))
     return ds, pristine
+
+
+def alias_kind(case):
+    """None: getitem_x clones (like the package's test datasets); 'list': it returns the stored tensor object;
+    'view': the samples are rows of one stored tensor and it returns self.x[idx] (equal shapes only)"""
+    a = case.get("alias_x", False)
+    if not a:
+        return None
+    if a == "view" and len({tuple(s) for s in case["shapes"]}) == 1:
+        return "view"
+    return "list"
+
+
+def shares_storage(ds, t):
+    ptrs = {x.untyped_storage().data_ptr() for x in ds.xs}
+    return t.untyped_storage().data_ptr() in ptrs
+
+
+HISTORY_MODES = ["x class", "x", "class", "class x", "x class index"]
 
 
 def mutated(ds, pristine):
@@ -444,6 +487,19 @@ def run_impl(case):
         obs["result"] = classify(e, "KDMixWrapper")
         return obs
     obs["total_p"] = float(w.total_p)
+    # earlier requests served by the same wrapper stack (their draws are not recorded: whatever they are, the dataset
+    # must be what it was afterwards and the recorded request must not notice them)
+    hist = case.get("history") or []
+    if hist:
+        np.random.seed(case["rng"][1] % (2 ** 32))
+        kept, raised = [], 0
+        for hidx, hmode in hist:
+            try:
+                kept.append(ModeWrapper(dataset=top, mode=HISTORY_MODES[hmode % len(HISTORY_MODES)])[hidx % n])
+            except Exception:
+                raised += 1
+        obs["history"] = {"n": len(hist), "raised": raised, "mutated": mutated(ds, pristine)}
+        del events[:]              # the access log / generator log describe the recorded request only
     mode = " ".join(case["tokens"])
     rc = bool(case.get("rc", False))
     above = bool((case.get("stack") or {}).get("xt_above"))
@@ -503,6 +559,10 @@ def run_impl(case):
             obs["layout"] = "tuple" if isinstance(out, tuple) and len(out) == len(toks) else f"{type(out).__name__}"
         obs["items"] = [summarise(it, t) for it, t in zip(items, toks)]
         obs["n_items"] = len(items)
+        if not above:
+            for it, t in zip(items, toks):
+                if t == "x" and isinstance(it, torch.Tensor):
+                    obs["x_shares"] = bool(shares_storage(ds, it))
         # the context: which calls of the wrapped dataset were handed the dictionary that is returned, what it contains
         for c in obs["calls"] or []:
             objs = c.pop("ctx_objs")
@@ -512,8 +572,8 @@ def run_impl(case):
         else:
             obs["ctx"] = None
 
-        # the three requests (and a repetition) under the same seed; alias datasets are restored first
-        if case["seed"] is not None and not case.get("alias_x", False) and any(t in ("x", "class") for t in toks):
+        # the three requests (and a repetition) under the same seed
+        if case["seed"] is not None and any(t in ("x", "class") for t in toks):
             def fetch(m):
                 return ModeWrapper(dataset=top, mode=m)[idx]
             try:
@@ -557,7 +617,7 @@ def run_impl(case):
                 same = same and (torch.equal(a, b) if isinstance(a, torch.Tensor) else a == b)
         obs["global"]["same_state_same_result"] = bool(same)
     # transparency of the spy: the same request with numpy's own default_rng (seeded cases, numpy draws)
-    if obs["result"] == "ok" and case["seed"] is not None and case["rng"][0] == "numpy" and not case.get("alias_x", False):
+    if obs["result"] == "ok" and case["seed"] is not None and case["rng"][0] == "numpy":
         _, items2, _ = unpack_out(ModeWrapper(dataset=top, mode=mode, return_ctx=rc)[idx])
         same = True
         for a, b in zip(items, items2):
@@ -565,7 +625,7 @@ def run_impl(case):
         obs["unpatched_same"] = bool(same)
     # through a real DataLoader (the stack's own worker_init_fn; samples are returned uncollated)
     ld = case.get("loader")
-    if ld and obs["result"] == "ok" and not case.get("alias_x", False):
+    if ld and obs["result"] == "ok":
         torch.manual_seed(case["rng"][1])
         mwl = ModeWrapper(dataset=top, mode=mode, return_ctx=rc)
         try:
@@ -597,6 +657,8 @@ def run_impl(case):
                 obs["loader"] = "documented error"
             else:
                 obs["loader"] = "raised " + type(e).__name__ + ": " + str(e)[:300]
+    if obs["result"] == "ok":
+        obs["mutated"] = mutated(ds, pristine)
     return obs
 
 
@@ -701,7 +763,7 @@ def check_items(case, obs, i, p, w):
             if list(it[1]) != list(case["shapes"][i]):
                 return f"x has shape {it[1]}, sample {i} has shape {case['shapes'][i]}"
             d = float(np.abs(np.array(it[2]) - ex_x).max()) if len(it[2]) else 0.0
-            if d > 2e-3:
+            if d > (0.07 if case.get("dtype") == "float16" and p is not None else 2e-3):
                 return (f"x differs by {d:.5f} from " + ("the untouched sample" if p is None else
                                                            f"{w:.6f}*x_{i} + {1 - w:.6f}*x_{p} (padded/cut to x_{i}'s shape)"))
         elif t == "class":
@@ -764,18 +826,27 @@ def oracle(case, obs):
         return "harness exception: " + obs["harness_exception"] + obs.get("tb", "")
     n = len(case["shapes"])
     i = case["idx"] + n if case["idx"] < 0 else case["idx"]
-    alias = case.get("alias_x", False)
+    alias = alias_kind(case)
+    hands = {None: "getitem_x hands out clones", "list": "getitem_x hands out the stored tensors",
+             "view": "getitem_x hands out views self.x[idx] of one stored tensor"}[alias]
+    hm = (obs.get("history") or {}).get("mutated")
+    if hm:
+        return (f"the wrapped dataset was modified in place by {obs['history']['n']} earlier request(s) through the same "
+                f"wrapper: {hm} ({hands}, getitem_class the stored label like tests_util's ClassificationDataset)")
     if obs["result"] != "ok":
         if expected_error(case, obs):
-            if obs.get("mutated") and not alias:
+            if obs.get("mutated"):
                 return f"the wrapped dataset was modified ({obs['mutated']}) by a request that raised {obs['result']}"
             return None
         return f"ModeWrapper(KDMixWrapper(...), '{' '.join(case['tokens'])}')[{case['idx']}] raised {obs['result']}"
-    if alias:
-        return None        # outside the claim (ASSUMPTIONS); what happens is recorded in the input distribution
     if obs["mutated"]:
-        return (f"the wrapped dataset was modified in place: {obs['mutated']} (getitem_x hands out clones, getitem_class "
+        return (f"the wrapped dataset was modified in place: {obs['mutated']} ({hands}, getitem_class "
                 f"the stored label like tests_util's ClassificationDataset)")
+    want_dt = "torch." + (case.get("dtype") or "float32")
+    for it, t in zip(obs["items"], case["tokens"]):
+        if t == "x" and it[0] == "x" and it[3] != want_dt:
+            return (f"x has dtype {it[3]}, the samples of the dataset have {want_dt} (an untouched sample keeps its dtype: "
+                    f"the dtype of a sample must not depend on the draw)")
     exp_layout = "single" if len(case["tokens"]) == 1 else "tuple"
     if obs["layout"] != exp_layout or obs["n_items"] != len(case["tokens"]):
         return f"returned {obs['layout']} with {obs['n_items']} items for mode {case['tokens']}"
@@ -814,7 +885,7 @@ def oracle(case, obs):
                         f"sample (the mixing partner) was loaded: {c}")
     if case.get("rc") and any(t in ("x", "class") for t in case["tokens"]) and set(obs.get("ctx") or {}) < {"x_of", "cls_of"}:
         return f"the returned context lacks the entries recorded while sample {i} was loaded: {obs.get('ctx')}"
-    if case.get("loader") and not alias:
+    if case.get("loader"):
         lo = obs.get("loader")
         if lo not in ("same", "unseeded", "documented error"):
             return f"fetching the dataset through a DataLoader ({case['loader']}): {lo}"
@@ -867,8 +938,10 @@ OUTCOME = {"ok": 0, "AssertionError@getitem": 1, "NotImplementedError": 2, "Asse
 
 
 def coq_applicable(case, obs):
-    if "harness_exception" in obs or case.get("alias_x", False):
+    if "harness_exception" in obs:
         return False
+    if case.get("dtype") == "float16" and any(call_partner(c)[0] is not None for c in (obs.get("calls") or [])):
+        return False       # float16 rounding of a mixed sample exceeds the model's tolerance (Python oracle only)
     if obs["result"] not in OUTCOME:
         return False
     if (case.get("stack") or {}).get("ls_above") is not None and (obs["result"] != "ok" or "class" in case["tokens"]):
@@ -928,7 +1001,10 @@ def coq_case(case, obs):
             p = call_partner(cs[-1])[0] if cs else None
             wit = Raw("None") if p is None else Opt((Nat(max(0, p)), q(0.5)))
     ctx_ids = [v if isinstance(v, int) else -1 for v in (obs.get("ctx") or {}).values()] if obs["result"] == "ok" else []
-    o = Rec(o_calls=calls, o_items=items, o_wit=wit, o_ctx_ids=ctx_ids)
+    changed = bool(obs.get("mutated")) or bool((obs.get("history") or {}).get("mutated"))
+    shares = obs.get("x_shares") if obs["result"] == "ok" else None
+    o = Rec(o_calls=calls, o_items=items, o_wit=wit, o_ctx_ids=ctx_ids, o_alias=alias_kind(case) is not None,
+            o_store_changed=changed, o_x_shares=Opt(shares))
     return coq((cfg, (lit, Nat(case["ncls"])), [tok(t) for t in case["tokens"]], Nat(i), Nat(OUTCOME[obs["result"]]), o))
 
 
@@ -993,8 +1069,20 @@ def gen_case(rng, big=False, tier="quick"):
         case["labels"] = [kind, [(k * case["label_mul"] + case["label_add"]) % ncls for k in range(n)]]
     if rng.random() < 0.04:
         case["tokens"] = case["tokens"] + ["aux0"]
-    if rng.random() < 0.04:
-        case["alias_x"] = True
+    r = rng.random()
+    if r < 0.2:
+        case["alias_x"] = True                  # getitem_x returns the stored tensor object
+    elif r < 0.4:
+        case["alias_x"] = "view"                # ... a view self.x[idx] of one stored tensor (equal shapes; else as above)
+    if rng.random() < 0.4:
+        case["history"] = [[rng.randrange(n), rng.randrange(len(HISTORY_MODES))] for _ in range(rng.randint(1, 4))]
+        if rng.random() < 0.5:
+            case["history"][-1][0] = case["idx"] % n          # the same index was requested just before
+    r = rng.random()
+    if r < 0.08:
+        case["dtype"] = "float64"
+    elif r < 0.14:
+        case["dtype"] = "float16"
     if case["seed"] is None and rng.random() < 0.12:
         case["rng"] = ["global", case["rng"][1]]      # the real GlobalRng under np.random.seed(...)
     # return_ctx, wrapper stacks around the mix wrapper
@@ -1050,11 +1138,16 @@ def search_cases(rng, tier):
 
 
 def shrink(case):
-    for key in ("loader", "stack"):
+    for key in ("loader", "stack", "history", "dtype"):
         if case.get(key):
             c = dict(case)
             c.pop(key)
             yield c
+    if case.get("history") and len(case["history"]) > 1:
+        for k in range(len(case["history"])):
+            yield dict(case, history=case["history"][:k] + case["history"][k + 1:])
+    if case.get("alias_x") == "view":
+        yield dict(case, alias_x=True)
     if case.get("stack") and len(case["stack"]) > 1:
         for k in case["stack"]:
             yield dict(case, stack={a: b for a, b in case["stack"].items() if a != k})
@@ -1129,12 +1222,18 @@ def features(case, obs):
         yield "loader workers=%d: %s" % (case["loader"]["workers"], str(obs.get("loader"))[:20])
     if case["ncls"] == 1:
         yield "one class"
-    if case.get("alias_x", False):
-        yield "alias_x: " + ("base dataset modified" if obs.get("mutated") else "base dataset unchanged")
+    yield "dataset hands out " + {None: "clones", "list": "its stored tensors", "view": "views of one stored tensor"}[alias_kind(case)]
+    if alias_kind(case) and any(call_partner(c)[0] == i for c in calls):
+        yield "aliasing dataset mixed with itself (x2 is x)"
+    if obs.get("history"):
+        yield "history of %d earlier requests" % obs["history"]["n"]
+    if "x_shares" in obs:
+        yield "returned x " + ("is the dataset's storage" if obs["x_shares"] else "is a new tensor")
+    yield "dtype=" + (case.get("dtype") or "float32")
 
 
 def nontrivial_key(case, obs):
-    if obs.get("result") != "ok" or case.get("alias_x", False):
+    if obs.get("result") != "ok":
         return None
     calls = obs.get("calls") or []
     ps = [call_partner(c)[0] for c in calls]
@@ -1147,4 +1246,4 @@ def nontrivial_key(case, obs):
         return None
     return (tuple(case["shapes"][i]), tuple(case["shapes"][p]), tuple(case["tokens"]), case["labels"][0], case["unify"],
             case["seed"] is not None, case["mixup_p"], case["cutmix_p"], tuple(sorted(case.get("stack") or {})),
-            bool(case.get("rc")))
+            bool(case.get("rc")), alias_kind(case), bool(case.get("history")))
